@@ -288,13 +288,21 @@ def rule_region(ck):
     # name-independent: `<table>[<class id>].from_dict(...)` where the table's values are the region classes of the package
     tabs = read_tables(P, f)
     ok = False
+    why = 'from_dict no longer rebuilds the region from its dictionary'
     for n in all_nodes(f):
         if isinstance(n, ast.Call) and isinstance(n.func, ast.Attribute) and n.func.attr == 'from_dict' and isinstance(n.func.value, ast.Subscript) \
                 and isinstance(n.func.value.value, ast.Name) and n.func.value.value.id in tabs:
             vals = [P.canon(f, v) for v in tabs[n.func.value.value.id][0].values()]
             if vals and all(v in P.classes and v.startswith('csep.core.regions.') for v in vals):
                 ok = True
-    (o.ok() if ok else o.fail('from_dict no longer rebuilds the region from its dictionary'))
+                # ... from the region's own dictionary, not from the catalog's (the region class finds none of its keys there, and the
+                # handler meant for a missing region swallows the error)
+                arg = n.args[0] if n.args else None
+                dp = [p_ for p_ in f.positional_params if p_ not in ('cls', 'self')][:1]
+                if arg is not None and dp and isinstance(arg, ast.Name) and arg.id == dp[0] and not find_assignments(f, arg.id):
+                    ok = False
+                    why = 'the region class is handed the catalog dictionary `%s` itself, not its region entry' % arg.id
+    (o.ok() if ok else o.fail(why))
 
 
 FIRST_ACCESS = (0, -1)
@@ -598,6 +606,21 @@ def rule_forms(ck):
     o = ck.ob('C14-D7.catid', c, 'catalog_id from the reader', c.node)
     txt = ' '.join(u(s) for s in c.node.body)
     (o.ok() if 'event_list, catalog_id = loader(filename, return_catalog_id=True)' in txt and 'catalog_id=catalog_id' in txt else o.fail('the catalog id read from the file is not handed to the catalog'))
+    # ... and the reader takes it from the column the writer puts it in (column 5, between depth and event id)
+    g = P.func('csep.utils.readers.csep_ascii')
+    exg = Expander(P, g, keep={'line'}, inline_depth=1)
+    for r_ in returns(g):
+        if isinstance(r_.value, ast.Tuple) and len(r_.value.elts) == 2:
+            oo = ck.ob('C14-D7.idcolumn', g, r_.value.elts[1], r_)
+            try:
+                e_ = exg.expand(r_.value.elts[1])
+            except Inconclusive as ex_:
+                oo.unknown(str(ex_))
+                continue
+            cols = {const_value(x.slice) for x in ast.walk(e_) if isinstance(x, ast.Subscript) and isinstance(x.value, ast.Name) and x.value.id == 'line'}
+            (oo.ok('column 5') if cols == {5} else
+             oo.fail('the catalog id is read from column(s) %s of the record; write_ascii puts it in column 5 (a depth such as 8.0 is no integer, '
+                     'so every file loads with the fallback id -1)' % sorted(cols)))
 
 
 def rule_empty_id(ck):
